@@ -166,6 +166,12 @@ class ElabPass:
         """Elaborate an BundleInstance"""
         # Annotate each BundleInstance so that its pre-elaboration `PortRef` magic is disabled.
         inst._elaborated = True
+        # And its Bundle definition, and those nested in it, which accept no further additions from here on.
+        bundle_defs = [inst.of]
+        while bundle_defs:
+            bundle_def = bundle_defs.pop()
+            bundle_def._elaborated = True
+            bundle_defs.extend(sub.of for sub in bundle_def.bundles.values())
         return inst
 
     def elaborate_instance_base(self, inst: _Instance) -> Instantiable:
